@@ -5,8 +5,14 @@ package basic
 import (
 	"sort"
 
+	enc "github.com/named-data/ndnd/std/encoding"
 	"github.com/named-data/ndnd/std/ndn"
 )
+
+// VerifTrieKey is the key under which NameTrie files a component (the path elements reported by the dumps below).
+func VerifTrieKey(c enc.Component) string {
+	return trieKey(c)
+}
 
 // Verification hooks (build tag `verif` only): read-only dumps of the application PIT and FIB tries.
 // No behaviour of the engine is changed; with the tag off this file is not compiled.
